@@ -124,6 +124,17 @@ Definition set_count (r : mrec) (s : fstate_id) (n : nat) : mrec :=
 Definition init_mrec (s0 : fstate_id) : mrec := mkM s0 (fun _ => None) (fun _ => 0).
 Definition init_world (s0 : fstate_id) : world := mkW (fun _ => init_mrec s0) 0.
 
+(* Models that already carry instance attributes under hook names when the machine is
+   attached: [pre m h] = identity of the object model m holds under name h; the [k] objects
+   that exist before the first event are numbered 0..k-1, created ones from k on. *)
+Definition init_world_p (s0 : fstate_id) (pre : fmodel -> fhook -> option nat) (k : nat) : world :=
+  mkW (fun m => mkM s0 (pre m) (fun _ => 0)) k.
+
+(* What getattr(model, hook) shows: the instance attribute, else the attribute of the
+   model's class ([cls m h], never touched by the machine). *)
+Definition visible (cls : fmodel -> fhook -> option nat) (w : world) (m : fmodel) (h : fhook) : option nat :=
+  match m_hooks (w_m w m) h with Some o => Some o | None => cls m h end.
+
 (* ----------------------------------------------------------------- observations *)
 Inductive fitem : Type :=
 | IExit (cb : fcb) (m : fmodel) (seen : fstate_id)
